@@ -397,34 +397,34 @@ func checkErrorReplyReachesSink(c *report.Ctx) {
 // checkLookupEnvPresence: reserved variables are taken from the process environment when they are SET there, even
 // if empty (os.LookupEnv): a reserved name that is set keeps a customer value of the same name out.
 func checkLookupEnvPresence(c *report.Ctx) {
-	f := fn(c, "L/rapidcore/env", "lookupEnv")
-	if f == nil {
-		return
-	}
-	facts := an.NewFacts(f)
 	n, ok := 0, true
-	an.AllInstrs(f, func(in ssa.Instruction) {
-		mu, isMU := in.(*ssa.MapUpdate)
-		if !isMU {
-			return
+	pos := token.NoPos
+	for _, f := range repoFuncs(c) {
+		if !strings.HasPrefix(an.FuncName(f), "L/rapidcore/env.") || len(an.CallsTo(f, "os.LookupEnv")) == 0 {
+			continue
 		}
-		n++
-		isOK := func(v ssa.Value) bool {
-			ex, k := v.(*ssa.Extract)
-			if !k || ex.Index != 1 {
-				return false
+		facts := an.NewFacts(f)
+		an.AllInstrs(f, func(in ssa.Instruction) {
+			mu, isMU := in.(*ssa.MapUpdate)
+			if !isMU {
+				return
 			}
-			cl, k2 := ex.Tuple.(*ssa.Call)
-			return k2 && an.Callee(cl) == "os.LookupEnv"
-		}
-		if !facts.Holds(mu.Block(), func(ft an.Fact) bool { return ft.Val && isOK(ft.Cond) }) {
-			ok = false
-		}
-		if ex, k := mu.Value.(*ssa.Extract); !k || ex.Index != 0 {
-			ok = false
-		}
-	})
-	c.Check("R-GUARD", an.FuncName(f)+"/set-means-reserved", "a reserved variable is taken over exactly when it is set in the process environment (os.LookupEnv's ok), empty or not", ok && n == 1, fpos(f), n, "map stores: %d, guarded by LookupEnv's ok and storing its value: %v", n, ok)
+			ex, k := mu.Value.(*ssa.Extract)
+			if !k || !an.IsResultOf(mu.Value, "os.LookupEnv", 0) {
+				return
+			}
+			n++
+			isOK := func(v ssa.Value) bool {
+				e2, k := v.(*ssa.Extract)
+				return k && e2.Index == 1 && e2.Tuple == ex.Tuple
+			}
+			if !facts.Holds(mu.Block(), func(ft an.Fact) bool { return ft.Val && isOK(ft.Cond) }) {
+				ok = false
+				pos = an.InstrPos(in)
+			}
+		})
+	}
+	c.Check("R-GUARD", "L/rapidcore/env.lookupEnv/set-means-reserved", "a reserved variable is taken over exactly when it is set in the process environment (os.LookupEnv's ok), empty or not", ok && n >= 1, pos, n, "map stores of a looked-up value: %d, all guarded by that lookup's ok: %v", n, ok)
 }
 
 // checkOptionalReservedStores: in storeNonCredentialEnvironmentVariablesFromInit a reserved platform variable that
